@@ -52,7 +52,16 @@ func (n *LocalNode) VerifSetFinger(k int, f chord.VNode) {
 }
 
 // single attempt of the leave protocol (no retry loop, no advisories)
-func (n *LocalNode) VerifExecuteLeave() (pre, succ chord.VNode, err error) { return n.executeLeave() }
+// one attempt of the leave protocol; tolerant of an added "pending successor" parameter (nil = fresh lookup)
+func (n *LocalNode) VerifExecuteLeave() (pre, succ chord.VNode, err error) {
+	switch f := any(n.executeLeave).(type) {
+	case func() (chord.VNode, chord.VNode, error):
+		return f()
+	case func(chord.VNode) (chord.VNode, chord.VNode, error):
+		return f(nil)
+	}
+	panic("verif: unsupported executeLeave signature")
+}
 
 // stop the background tasks of a node the harness is done with (idempotent)
 func (n *LocalNode) VerifStop() {
